@@ -139,10 +139,22 @@ def nospaceOk (ns : SuffixMatcher) (v : Str) (expressed : Bool) : Bool :=
   wantsNospace ns v == expressed || wantsNospace ns (dropTCL v) == expressed
 
 /-- the candidates that must be shown: those extending the typed word (all when unfiltered) -/
+def specShown (i : FmtInput) : List RawValue :=
+  if i.env.unfiltered then i.values else i.values.filter (fun v => matchHasPrefix i.env.ci v.value i.word)
+
+/-- bash: a candidate equal to the part of the word bash keeps leaves nothing to insert: its record is
+    an empty line, which the snippet keeps only beside other records (outside the claim) -/
+def emptyResidual (i : FmtInput) (v : RawValue) : Bool :=
+  i.sh == .bash && (dropTCL (Str.trimPrefix v.value i.env.bashPrefix)).isEmpty
+
 def specCands (i : FmtInput) : List RawValue :=
-  let vs := if i.env.unfiltered then i.values else i.values.filter (fun v => matchHasPrefix i.env.ci v.value i.word)
-  -- bash: a candidate equal to the part of the word bash keeps leaves nothing to insert (outside the claim)
-  if i.sh == .bash then vs.filter (fun v => !(dropTCL (Str.trimPrefix v.value i.env.bashPrefix)).isEmpty) else vs
+  (specShown i).filter (fun v => !emptyResidual i v)
+
+/-- drop up to `n` records whose insert text is empty -/
+def dropEmptyRecs : Nat → List Rec → List Rec
+  | 0, rs => rs
+  | _, [] => []
+  | n + 1, r :: rs => if r.insert.isEmpty then dropEmptyRecs n rs else r :: dropEmptyRecs (n + 1) rs
 
 def isErrDisplay (d : Str) : Bool :=
   Str.hasPrefix d errS && (d.drop 3).all Char.isDigit
@@ -331,7 +343,7 @@ def checkC04 (i : FmtInput) (cands : List RawValue) (errCount : Nat) (dec : Deco
   count ++ breaks ++ fields
 
 /-- C05: the space decision -/
-def checkC05 (i : FmtInput) (cands : List RawValue) (dec : Decoded) (obs : List Obs) (commonStep : Bool) : List Failure :=
+def checkC05 (i : FmtInput) (cands : List RawValue) (dec : Decoded) (obs : List Obs) (commonStep : Bool) (emitted : Nat) : List Failure :=
   let ns := effNospace i
   match i.sh with
   | .export => []    -- carried as the set itself; compared by the driver against the input set
@@ -341,7 +353,7 @@ def checkC05 (i : FmtInput) (cands : List RawValue) (dec : Decoded) (obs : List 
     | none => [{ prop := "C05", code := "bash:noflag" }]
     | some g =>
       if commonStep then (if g then [] else [{ prop := "C05", code := "bash:common_prefix_space" }])
-      else if obs.length == 1 then
+      else if obs.length == 1 && emitted == 1 then   -- `emitted`: records on the wire, empty ones included
         match obs.head? with
         | some o =>
           -- find the candidate this record stands for
@@ -394,7 +406,7 @@ def checkC05 (i : FmtInput) (cands : List RawValue) (dec : Decoded) (obs : List 
           else some { prop := "C05", code := s!"{sh.name}:{if nsp then "nospace_not_wanted" else "space_not_wanted"}", detail := showStr o.text })
 
 /-- C06: messages reach the user; error entries cannot be inserted by accident -/
-def checkC06 (i : FmtInput) (cands : List RawValue) (dec : Decoded) (obs : List Obs) (commonStep : Bool) : List Failure :=
+def checkC06 (i : FmtInput) (cands : List RawValue) (dec : Decoded) (obs : List Obs) (commonStep : Bool) (emitted : Nat) : List Failure :=
   if i.msgs.isEmpty || commonStep then
     []
   else if i.sh.hasMessageChannel then
@@ -421,7 +433,7 @@ def checkC06 (i : FmtInput) (cands : List RawValue) (dec : Decoded) (obs : List 
     let f4 : List Failure :=
       if insertsWhole i obs.length && words.any (fun w => cands.any (fun c => insertValue i c.value == w)) then [{ prop := "C06", code := s!"{i.sh.name}:err_value_is_candidate" }] else []
     let f5 : List Failure :=
-      if obs.length < 2 then [{ prop := "C06", code := s!"{i.sh.name}:single_entry", detail := s!"{obs.length}" }] else []
+      if max obs.length emitted < 2 then [{ prop := "C06", code := s!"{i.sh.name}:single_entry", detail := s!"{obs.length}" }] else []
     let f6 : List Failure :=
       if !insertsWhole i obs.length then [] else
       (obs.filter (isErrObs i cands)).filterMap (fun o =>
@@ -446,13 +458,20 @@ def checkAll (i : FmtInput) (dec : Option Decoded) : List Failure × Nat :=
   match dec with
   | none => ([{ prop := "C04", code := s!"{i.sh.name}:undecodable" }], 0)
   | some dec =>
-    let cands := specCands i
+    let shown := specShown i
+    -- list-only mode prints display texts: every candidate has its line there
+    let listMode := i.sh == .bash && i.env.bashCompType == "63".toList && dec.recs.length != 1 &&
+      !(shown.length == 1 && i.msgs.isEmpty)   -- a single value is always formatted for insertion
+    let cands := if listMode then shown else specCands i
+    -- the filler entry is decided on what the code counts: every candidate to be shown
     let errCount :=
       if i.msgs.isEmpty || i.sh.hasMessageChannel then 0
-      else i.msgs.length + (if cands.length + i.msgs.length == 1 then 1 else 0)
+      else i.msgs.length + (if shown.length + i.msgs.length == 1 then 1 else 0)
+    let emitted := dec.recs.length
+    let dec := if listMode then dec else { dec with recs := dropEmptyRecs (shown.length - cands.length) dec.recs }
     let obs := dec.recs.map (observe i)
     let cs := isCommonStep i cands errCount obs
     (checkC02 i cands obs cs ++ checkC03 i cands obs cs ++ checkC04 i cands errCount dec obs cs
-      ++ checkC05 i cands dec obs cs ++ checkC06 i cands dec obs cs, softC03 i obs)
+      ++ checkC05 i cands dec obs cs emitted ++ checkC06 i cands dec obs cs emitted, softC03 i obs)
 
 end Carapace.Spec
